@@ -6,6 +6,7 @@ import (
 	"os"
 	"os/exec"
 	"path/filepath"
+	"runtime/debug"
 	"sort"
 	"strings"
 	"sync"
@@ -264,6 +265,9 @@ func AnalyseAll(cfg load.Config) map[string][]chk.Obligation {
 			c := &chk.Ctx{P: p, F: fa, M: m}
 			defer func() {
 				if r := recover(); r != nil {
+					if os.Getenv("JRPCVET_DEBUG") != "" {
+						fmt.Fprintf(os.Stderr, "panic in %s: %v\n%s\n", id, r, debug.Stack())
+					}
 					out[id] = append(c.Obs, chk.Obligation{Rule: "ENGINE", Func: "-", Construct: "panic", Site: "-", Status: chk.Undecided, Detail: fmt.Sprint(r)})
 				}
 			}()
